@@ -189,6 +189,19 @@ def build_lean(bs, modules):
         bs.driver_ok = False
         bs.driver_err = (out + err)[-6000:]
     for m in modules:
+        pre = getattr(PROPS, "PRECHECK", {}).get(m)
+        if pre:
+            # fast (interpreted) evaluation of decidable obligations over regenerated facts: a false predicate would
+            # make the kernel proof fail only after minutes, so report the obligation broken right away
+            deps, script = pre
+            rc, out, err = lake_build(deps)
+            if rc == 0:
+                rc, out, err = run(["lake", "env", "lean", "--run", script], cwd=LEAN, timeout=600)
+            bad = [l for l in out.split("\n") if l.endswith("=false")]
+            if rc != 0 or bad:
+                bs.lean_ok[m] = False
+                bs.lean_err[m] = ("precheck %s: %s (the kernel proof was not attempted)" % (script, ", ".join(bad) or (out + err)[-800:]))
+                continue
         rc, out, err = lake_build([m])
         bs.lean_ok[m] = (rc == 0)
         if rc != 0:
